@@ -16,7 +16,8 @@ from vf.core import Reject, check_close, check_equal, relerr
 
 RULE = (
   "case = physics-trivial 2-dof model (limited slide + hinge pendulum, no contacts) with 1-3 actuators (motor / filter-motor / position; delay in dt*{0,0.5,1,1.37,2.5,7}, "
-  "nsample 1-8, interp zoh/linear/cubic) and 1-4 sensors of every stage incl. the limit, energy and subtree groups (dim 1,3,4; delay and/or interval with phase, or "
+  "nsample 1-8, interp zoh/linear/cubic; 1 case in 8 is a closed-form 'ticks' case instead: one slide joint at constant velocity, a buffered jointpos sensor with interval = k*timestep and a delay of 1-4 steps, "
+  "30-160 steps, expected reading v*dt*k*floor((n-1-ds)/k)) and 1-4 sensors of every stage incl. the limit, energy and subtree groups (dim 1,3,4; delay and/or interval with phase, or "
   "interval without buffer), integrator Euler/implicitfast/RK4, 1-3 worlds with different piecewise-random controls; start kind make_data / put_data(fresh MjData) / "
   "put_data(stepped MjData) / reset_data full / reset_data partial mask after a prior history; then 1-40 lock-steps interleaved with read_ctrl/read_sensor queries "
   "(sample-aligned and in-between times, every interp) and init_ctrl_history/init_sensor_history calls (explicit times incl. future ones, or times=None). "
@@ -101,7 +102,61 @@ def _sens_strategy():
   )
 
 
+def _ticks_strategy():
+  """Interval = k * timestep (the usual configuration): every tick falls exactly on a step, where float32 time round-off decides.  Closed-form oracle."""
+  return st.fixed_dictionaries(
+    dict(
+      kind=st.just("ticks"),
+      dt=st.sampled_from([0.002, 0.004, 0.005, 0.01]),
+      k=st.sampled_from([2, 3, 5, 7]),
+      delay_steps=st.sampled_from([1, 2, 4]),  # (buffered sensors; an interval sensor without a buffer follows another rule and is covered by the lock-step class)
+      steps=st.integers(30, 160),
+      v=st.sampled_from([1.0, -0.7, 0.25]),
+      nworld=st.sampled_from([1, 2]),
+    )
+  )
+
+
+def _check_ticks(case, rec):
+  """A slide joint moving at constant velocity v (no forces): jointpos sampled every k steps and read with a delay of ds steps is, after step n
+  (sensors are evaluated at T = (n-1) dt), v * dt * k * floor((n-1-ds)/k) once n-1-ds >= 0 and the initial 0 before."""
+  dt, k, ds, v, n = float(case["dt"]), int(case["k"]), int(case["delay_steps"]), float(case["v"]), int(case["nworld"])
+  dly = f' delay="{_r6(ds * dt)}" nsample="{ds + 3}"' if ds else ""
+  xml = (
+    f'<mujoco><option timestep="{dt}" gravity="0 0 0"/><worldbody><body><joint name="j" type="slide" axis="1 0 0"/><geom size=".1" mass="1"/></body></worldbody>'
+    f'<sensor><jointpos joint="j" interval="{_r6(k * dt)} 0"{dly}/></sensor></mujoco>'
+  )
+  mjm = H.compile_xml(xml)
+  m = H.put_model(mjm)
+  d = H.make_data(mjm, nworld=n, nconmax=4, njmax=4)
+  vel = np.array([[v * (1 + w)] for w in range(n)], dtype=np.float32)
+  d.qvel.assign(vel)
+  rec.cls("ticks", f"ticks:delay:{ds > 0}", f"ticks:k:{k}")
+  late = 0
+  for step in range(1, int(case["steps"]) + 1):
+    mjw.step(m, d)
+    got = d.sensordata.numpy()[:, 0]
+    j = step - 1
+    for w in range(n):
+      rec.ev()
+      want = float(vel[w, 0]) * dt * k * ((j - ds) // k) if j - ds >= 0 else 0.0
+      if abs(float(got[w]) - want) > 2e-5 * max(1.0, abs(want)):
+        late += 1
+        rec.violation(
+          f"interval = {k} * timestep, delay = {ds} steps, dt {dt}: after step {step} the sensor reads {float(got[w])!r}, the sample schedule gives {want!r} (world {w})",
+          sig="ticks:regular", step=step, world=w, k=k, delay_steps=ds, dt=dt,
+        )
+        return
+  rec.nt()
+
+
 def strategy(tier):
+  big = tier == "thorough"
+  main = _main_strategy(tier)
+  return st.one_of(main, main, main, main, main, main, main, _ticks_strategy())
+
+
+def _main_strategy(tier):
   big = tier == "thorough"
   return st.fixed_dictionaries(
     dict(
@@ -506,6 +561,8 @@ def _mk_refs(mjm, n, src=None):
 
 
 def check(case, rec):
+  if case.get("kind") == "ticks":
+    return _check_ticks(case, rec)
   L = Lock(case, rec)
   mjm, m, n = L.mjm, L.m, L.n
   if mjm.nhistory == 0 and not any(s["period"] > 0 for s in case["sens"]):
